@@ -68,7 +68,7 @@ CLAIMED["C09"] = dict(
 CLAIMED["C10"] = dict(
    category="model_checking", design_ref="§3 C10",
    text="PqOpticsGrad.tla is the exact tangent semantics of PqOptics: the derivative of the state with respect to one parameter (Beamsplitter theta / phi, Phaseshifter phi) of one gate of the program, by the Leibniz rule on the substitution a_c^dagger -> L_c with the derivative of the documented one-particle matrix (a lattice matrix with the same denominator); Kerr-type and parameter-free gates are differentiated through. TLC checks Re<psi|dpsi> = 0 on every behaviour (d=2,3, n<=3, depth 2-3) and exports state and tangent. The exact Jacobian of all Fock probabilities, 2 Re(conj(a_v) da_v), is compared at 1e-7 with tf.GradientTape (eager and inside tf.function), with jax.jacfwd / jax.jacrev (eager and under jax.jit) and, as the property's own oracle, with central finite differences of the NumPy simulation. The JAX permanent: value and holomorphic gradient against the definition (d perm / dA_ij = rows_i cols_j perm of the minor) for Gaussian-integer matrices with multiplicities.",
-   note="Not decided: the hand-written gradient rules of Fock-space displacement and squeezing (their amplitudes are transcendental in the parameter, no exact lattice tangent) and batched states.",
+   note="Active gates in Fock space (hand-written displacement / squeezing rules, gate-application rule; d = 2, 3) have no exact lattice tangent: for TLC-generated PqGaussian programs on number-state inputs the oracle is the property's own, central finite differences of the NumPy simulation (2e-6). A derivative that cannot be obtained at all (tf.function cannot trace the gate, JAX has no rule for schur) is counted, not judged. Batched states are not covered.",
    technique="exact tangent semantics in TLA+ (TLC-checked, exported) compared with TensorFlow / JAX automatic derivatives, eager and compiled",
    engine="PqOpticsGrad")
 CLAIMED["C15"] = dict(
@@ -103,8 +103,8 @@ CLAIMED["C07"] = dict(
    engine="PqGaussian")
 CLAIMED["C14"] = dict(
    category="model_checking", design_ref="§3 C14",
-   text="PqGaussian.tla derives the quadrature representations from exact ladder moments with an explicit hbar and exports them for hbar in {1/2, 2, 8}. Replay on lattice states: complex / xxpp / xpxp representations and per-mode mean photon numbers against exact values; setter o getter round trips through both orderings; reduced() on every ordered mode subset and rotated() on lattice angles against the spec's sub-blocks and phase rules; Fock probabilities, purity, fidelity, threshold probabilities, density matrix and mean photon number equal across hbar.",
-   note="Mixed states through thermal preparations are not in the spec yet; dimensionless observables other than the mean photon number are compared across hbar, not against closed forms.",
+   text="PqGaussian.tla derives the quadrature representations from exact ladder moments with an explicit hbar and exports them for hbar in {1/2, 2, 8}. Replay on lattice states: complex / xxpp / xpxp representations and per-mode mean photon numbers against exact values; setter o getter round trips through both orderings; reduced() on every ordered mode subset and rotated() on lattice angles against the spec's sub-blocks and phase rules; Fock probabilities, purity, fidelity, threshold probabilities, density matrix and mean photon number equal across hbar; photon-number and threshold samples drawn with the same seed are identical for every hbar (deterministic, pure and mixed lattice states).",
+   note="Mixed states enter through the attenuator channel; dimensionless observables other than the mean photon number are compared across hbar, not against closed forms.",
    technique="exact TLA+ representation maps with explicit hbar + TLC; replay of getters / setters / reduced / rotated on GaussianState",
    engine="PqGaussian")
 CLAIMED["C18"] = dict(
